@@ -5,6 +5,7 @@ use crate::common;
 #[derive(Debug, Clone, Copy, PartialEq, Eq, PartialOrd, Ord, Hash)]
 #[allow(non_camel_case_types)]
 #[repr(u16)]
+#[cfg_attr(feature = "verif-hooks", allow(missing_docs))]
 pub enum SyntaxKind {
     KEY = 0,
     VALUE,
